@@ -128,12 +128,18 @@ def hexDigitVal (c : Char) : Option Nat :=
   else if 65 ≤ c.toNat ∧ c.toNat ≤ 70 then some (c.toNat - 55)
   else none
 
+/-- which `unwrap()`/`finish()` fires -/
+inductive Cause
+  | charTryFrom        -- `char::try_from(..).unwrap()` in `tokens.rs::unescape`
+  | finishIncomplete   -- `finish()` on `Err::Incomplete` in `parse_text_token`
+  deriving DecidableEq, Repr
+
 /-- Outcome of a sub-parser: `fail` = nom `Err::Error`, `panic` = the Rust code panics, `unsup` = outside the
 modelled fragment. -/
 inductive R (α : Type)
   | ok (a : α)
   | fail
-  | panic
+  | panic (c : Cause)
   | unsup
   deriving DecidableEq, Repr
 
@@ -148,7 +154,7 @@ def validScalar (n : Nat) : Bool := decide (n < 0xd800) || decide (0xdfff < n)
 inductive StepRes
   | next (st : EscSt) (out : Option Char)
   | failed
-  | panic
+  | panic (c : Cause)
   deriving DecidableEq, Repr
 
 /-- one step of the `scan` closure of `unescape` -/
@@ -177,7 +183,7 @@ def unescStep (st : EscSt) (c : Char) : StepRes :=
     | some e =>
       if validScalar (a <<< 12 ||| b <<< 8 ||| d <<< 4 ||| e) then
         .next .none (some (Char.ofNat (a <<< 12 ||| b <<< 8 ||| d <<< 4 ||| e)))
-      else if unescSurrogatePanics then .panic   -- `char::try_from(..).unwrap()`
+      else if unescSurrogatePanics then .panic .charTryFrom   -- `char::try_from(..).unwrap()`
       else .failed
     | none => .failed
 
@@ -188,7 +194,7 @@ def unescRun : EscSt → Str → R Str
   | st, c :: cs =>
     match unescStep st c with
     | .failed => .fail
-    | .panic => .panic
+    | .panic c => .panic c
     | .next st' (some o) =>
       match unescRun st' cs with
       | .ok r => .ok (o :: r)
@@ -219,7 +225,7 @@ def lexString : Str → R (Str × Str × Str)
         match resolveEscapes r.1 with
         | .ok u => .ok (r.1, u, r.2)
         | .fail => .fail
-        | .panic => .panic
+        | .panic c => .panic c
         | .unsup => .unsup
       | none => .fail
     else .fail
@@ -232,7 +238,7 @@ def pName (s : Str) : R (Str × Str) :=
     match lexString s with
     | .ok r => .ok (r.2.1, r.2.2)
     | .fail => .fail
-    | .panic => .panic
+    | .panic c => .panic c
     | .unsup => .unsup
 
 /-- first characters of the `value` alternatives that are outside the modelled fragment (numbers, blobs, records) -/
@@ -248,7 +254,7 @@ def pValue (s : Str) : R (Str × Str) :=
       match lexString s with
       | .ok r => .ok ('"' :: (r.1 ++ ['"']), r.2.2)
       | .fail => .fail
-      | .panic => .panic
+      | .panic c => .panic c
       | .unsup => .unsup
     else
       match lexIdent s with
@@ -265,7 +271,7 @@ inductive Item
   | slot (name value rest : Str)
   | valueItem (rest : Str)      -- always ends in `feed_header_value` = error for this peeler
   | noItem
-  | panic
+  | panic (c : Cause)
   | unsup
   deriving DecidableEq, Repr
 
@@ -278,16 +284,16 @@ def pItem (s : Str) : Item :=
       match pValue r2 with
       | .ok vr => .slot nr.1 vr.1 vr.2
       | .fail => .slot nr.1 [] r2
-      | .panic => .panic
+      | .panic c => .panic c
       | .unsup => .unsup
     | none => .valueItem nr.2
   | .fail =>
     match pValue s with
     | .ok vr => .valueItem vr.2
     | .fail => .noItem
-    | .panic => .panic
+    | .panic c => .panic c
     | .unsup => .unsup
-  | .panic => .panic
+  | .panic c => .panic c
   | .unsup => .unsup
 
 /-- the fields of `EnvelopeHeaderPeeler` that matter here (value spans as read) -/
@@ -311,7 +317,7 @@ def applySlot (acc : Option PSt) (name value : Str) : Option (Option PSt) :=
 inductive IRes
   | ok (p : PSt) (afterSep : Bool) (rest : Str)
   | fail
-  | panic
+  | panic (c : Cause)
   | unsup
   deriving DecidableEq, Repr
 
@@ -328,7 +334,7 @@ def itemsLoop : Nat → Option PSt → Bool → Str → IRes
   | fuel + 1, acc, afterSep, s =>
     match pItem (skipMulti s) with
     | .unsup => .unsup
-    | .panic => .panic
+    | .panic c => .panic c
     | .noItem =>
       match skipSpace (skipMulti s) with
       | [] => loopEnd acc afterSep s
@@ -354,7 +360,7 @@ def itemsLoop : Nat → Option PSt → Bool → Str → IRes
           | none => .unsup
         else loopEnd acc afterSep s
 
-inductive FRes | ok (p : PSt) (rest : Str) | fail | panic | unsup
+inductive FRes | ok (p : PSt) (rest : Str) | fail | panic (c : Cause) | unsup
   deriving DecidableEq, Repr
 
 /-- `peel_final_item` -/
@@ -366,7 +372,7 @@ def finalItem (p : PSt) (afterSep : Bool) (s : Str) : FRes :=
     | some none => .fail
     | none => .unsup
   | .valueItem _ => .fail
-  | .panic => .panic
+  | .panic c => .panic c
   | .unsup => .unsup
   | .noItem => if afterSep then .fail else .ok p (skipMulti s)
 
@@ -385,7 +391,7 @@ def pParen (s : Str) : FRes :=
           | d :: r3 => if d = ')' then .ok p' r3 else .fail
         | e => e
       | .fail => .fail
-      | .panic => .panic
+      | .panic c => .panic c
       | .unsup => .unsup
     else .fail
 
@@ -406,7 +412,7 @@ def tagKind (name : Str) : Option RKind :=
   else if name = rTag_unlinked then some (.k .unlinked)
   else none
 
-inductive TT | ok (s : Str) | err | panic
+inductive TT | ok (s : Str) | err | panic (c : Cause)
   deriving DecidableEq, Repr
 
 /-- `parse_text_token` followed by `finish()` (which panics on `Incomplete`: the *streaming* `string_literal`
@@ -416,15 +422,15 @@ def parseTextToken (span : Str) : TT :=
   | some r => if skipSpace r.2 = [] then .ok r.1 else .err
   | none =>
     match skipSpace span with
-    | [] => if textTokenIncompletePanics then .panic else .err
+    | [] => if textTokenIncompletePanics then .panic .finishIncomplete else .err
     | c :: cs =>
       if c = '"' then
         match scanStr false cs with
-        | none => if textTokenIncompletePanics then .panic else .err
+        | none => if textTokenIncompletePanics then .panic .finishIncomplete else .err
         | some r =>
           match resolveEscapes r.1 with
           | .ok u => if skipSpace r.2 = [] then .ok u else .err
-          | .panic => .panic
+          | .panic c => .panic c
           | _ => .err
       else .err
 
@@ -434,7 +440,7 @@ inductive Peeled
   | auth
   | deauth
   | err
-  | panic
+  | panic (c : Cause)
   | unsup
   deriving DecidableEq, Repr
 
@@ -447,11 +453,11 @@ def done (k : RKind) (p : PSt) (body : Str) : Peeled :=
     match p.node, p.lane with
     | some n, some l =>
       match parseTextToken n with
-      | .panic => .panic
+      | .panic c => .panic c
       | .err => .err
       | .ok n' =>
         match parseTextToken l with
-        | .panic => .panic
+        | .panic c => .panic c
         | .err => .err
         | .ok l' => .env kind n' l' body
     | _, _ => .err
@@ -469,11 +475,11 @@ def peel (s : Str) : Peeled :=
           match pParen nr.2 with
           | .ok p r2 => done k p (skipSpace r2)
           | .fail => done k {} (skipSpace nr.2)
-          | .panic => .panic
+          | .panic c => .panic c
           | .unsup => .unsup
         | none => .err
       | .fail => .err
-      | .panic => .panic
+      | .panic c => .panic c
       | .unsup => .unsup
     else .err
 
@@ -516,13 +522,17 @@ def Kind.parse : String → Option Kind
 
 def Peeled.render : Peeled → String
   | .env k n l b => s!"env {k.name} {hexOfStr n} {hexOfStr l} {hexOfStr b}"
-  | .auth => "auth" | .deauth => "deauth" | .err => "err" | .panic => "panic" | .unsup => "unsup"
+  | .auth => "auth" | .deauth => "deauth" | .err => "err" | .unsup => "unsup"
+  | .panic .charTryFrom => "panic char-try-from"
+  | .panic .finishIncomplete => "panic finish-incomplete"
 
 def Peeled.parse : List String → Option Peeled
   | ["env", k, n, l, b] => do
     let k ← Kind.parse k; let n ← strOfHex n; let l ← strOfHex l; let b ← strOfHex b
     pure (.env k n l b)
-  | ["auth"] => some .auth | ["deauth"] => some .deauth | ["err"] => some .err | ["panic"] => some .panic
+  | ["auth"] => some .auth | ["deauth"] => some .deauth | ["err"] => some .err
+  | ["panic", "char-try-from"] => some (.panic .charTryFrom)
+  | ["panic", "finish-incomplete"] => some (.panic .finishIncomplete)
   | ["unsup"] => some .unsup
   | _ => none
 
@@ -554,58 +564,48 @@ def runOp : Op → String
 
 def stripSpace (s : Str) : Str := s.dropWhile isSpace
 
-def dropUs : Str → Str
-  | c :: r => if c = 'u' then dropUs r else c :: r
-  | [] => []
-
-/-- the text contains a `\\uXXXX` escape whose digits name a UTF-16 surrogate (classification of a panic only) -/
-def hasSurrogateEscape : Str → Bool
-  | [] => false
-  | c :: r =>
-    (c == '\\' &&
-      (match r with
-       | u :: r' =>
-         u == 'u' &&
-          (match dropUs r' with
-           | a :: b :: _ => (a == 'd' || a == 'D') && (hexDigitVal b).any (fun v => decide (8 ≤ v))
-           | _ => false)
-       | [] => false)) || hasSurrogateEscape r
-
-/-- Names the cause of an observed reader panic (the verdict itself does not depend on the model). -/
-def panicReason (frame : Str) : String :=
-  if hasSurrogateEscape frame then "reader-panic-surrogate-escape"
-  else if peel frame = .panic then "reader-panic-empty-name"
-  else "reader-panic"
+/-- Names an observed reader panic by the `unwrap`/`finish` that fired (reported by the harness). -/
+def panicReason : List String → Option String
+  | ["panic", "char-try-from"] => some "reader-panic-surrogate-escape"
+  | ["panic", "finish-incomplete"] => some "reader-panic-empty-name"
+  | "panic" :: _ => some "reader-panic"
+  | _ => none
 
 /-- Violation reason, if any, of one observed `rt`/`peel` line. -/
 def monStep (op : Op) (out : String) : Option String :=
   match op with
-  | .peel f =>
-    match Peeled.parse (words out) with
-    | some .panic => some (panicReason f)
-    | some _ => none
-    | none => some "unparsable"
+  | .peel _ =>
+    match panicReason (words out) with
+    | some r => some r
+    | none =>
+      match Peeled.parse (words out) with
+      | some _ => none
+      | none => some "unparsable"
   | .rt m =>
-    match (words out).dropLast |> Peeled.parse with
-    | some (.env k n l b) =>
-      if k ≠ m.kind then some "rt-kind-changed"
-      else if n ≠ m.node then some "rt-node-changed"
-      else if l ≠ m.lane then some "rt-lane-changed"
-      else if b ≠ stripSpace (if hasBody m.kind then m.body else []) then some "rt-body-changed"
-      else none
-    | some .panic => some "rt-reader-panic"
-    | some _ => some "rt-not-decoded"
-    | none => some "unparsable"
+    match panicReason (words out).dropLast with
+    | some r => some ("rt-" ++ r)
+    | none =>
+      match (words out).dropLast |> Peeled.parse with
+      | some (.env k n l b) =>
+        if k ≠ m.kind then some "rt-kind-changed"
+        else if n ≠ m.node then some "rt-node-changed"
+        else if l ≠ m.lane then some "rt-lane-changed"
+        else if b ≠ stripSpace (if hasBody m.kind then m.body else []) then some "rt-body-changed"
+        else none
+      | some _ => some "rt-not-decoded"
+      | none => some "unparsable"
   | .nosuch node lane =>
-    match (words out).dropLast |> Peeled.parse with
-    | some (.env k n l b) =>
-      if k ≠ .unlinked then some "rt-kind-changed"
-      else if n ≠ node then some "rt-node-changed"
-      else if l ≠ lane.getD [] then some "rt-lane-changed"
-      else if b ≠ nodeNotFoundTag then some "rt-body-changed"
-      else none
-    | some .panic => some "rt-reader-panic"
-    | some _ => some "rt-not-decoded"
-    | none => some "unparsable"
+    match panicReason (words out).dropLast with
+    | some r => some ("rt-" ++ r)
+    | none =>
+      match (words out).dropLast |> Peeled.parse with
+      | some (.env k n l b) =>
+        if k ≠ .unlinked then some "rt-kind-changed"
+        else if n ≠ node then some "rt-node-changed"
+        else if l ≠ lane.getD [] then some "rt-lane-changed"
+        else if b ≠ nodeNotFoundTag then some "rt-body-changed"
+        else none
+      | some _ => some "rt-not-decoded"
+      | none => some "unparsable"
 
 end SwimVerif.Envelope
